@@ -229,7 +229,6 @@ class Runner:
                     results = m['result']
                 if 'messageText' in m:
                     texts.append(m['messageText'])
-        res['messages'] = texts
         bad = [t for t in texts if re.search(r'ignoring|not enough arguments|no body for function', t) and not (u.light and re.search(r'no body for function .*(vf_nondet|exit)', t))]
         if bad:
             res['detail'] = 'unexpected CBMC warning(s): ' + ' | '.join(bad[:5])
@@ -237,7 +236,6 @@ class Runner:
         if results is None:
             res['detail'] = 'no result array in cbmc output (rc %s): %s' % (rc, ' | '.join(texts[-5:]))
             return res
-        res['raw_results'] = results
         obl, failed, sentinel = [], [], None
         for r in results:
             name, st, desc = r.get('property', ''), r.get('status', ''), r.get('description', '')
